@@ -105,6 +105,9 @@ def linearity(rep, name):
         evars = [t.decl().name() for t in base[exc_arg].blocks[0].flat]
         typed = True
         paths0 = [p for p in sp.run(f, args=base) if "out" in p]
+        from contracts.bhjm import report_problems
+
+        report_problems(rep, sp, f"{name}.{f}", fn["function"])
         for i, p in enumerate(paths0, 1):
             lc = LinCheck(evars, {})
             ok = all(lc.cls(t) == "bconst" for t in p["pc"]) and all(lc.cls(t) in ("lin", "zero") for t in p["out"])
